@@ -2,9 +2,9 @@
 EXTENDS PotVec
 MCC12 == {0, 1, 3}
 MCC6 == {0, 2, -1}
-MCA == {-2, 3}
+MCA == {-2, 0, 3}
 MCM == {-4, 0, 4, 8}
-MCJ0 == {1, 2, 3}
+MCJ0 == {0, 1, 2, 3}
 \* [min, cut] in half units (r = P/2)
 MCRanges == {<<1, 4>>, <<2, 5>>}
 SC(ni, m, xmin, cut8) == [NI |-> ni, M |-> m, xmin |-> xmin, cut8 |-> cut8]
@@ -15,4 +15,8 @@ MCDec == { <<"lj126", <<3, 2, 0, 0, 0>>, 3, 12, 14>>, <<"lj126", <<1, -1, 0, 0, 
            <<"ljg", <<1, 2, 3, 100, 5>>, 3, 12, 14>>, <<"ljg", <<0, 1, -2, -100, 7>>, 2, 13, 14>> }
 \* one table of 131 073 rows, r = P/4096 from 0.5 to 32.5
 MCBig == { << <<3, 2, 0, 0, 0>>, 2048, 133120 >> }
+\* on and around the coordinate hyperplanes: negative c12, negative r0, everything zero, one parameter alone
+MCHyper == { <<"ljg", <<-1, 2, 3, 4, 1>>>>, <<"ljg", <<1, 2, 3, 4, -1>>>>, <<"ljg", <<0, 0, 0, 0, 0>>>>,
+             <<"ljg", <<0, 0, 0, 4, 1>>>>, <<"ljg", <<0, 0, 3, 0, 0>>>>, <<"ljg", <<0, 0, 0, 0, 2>>>>,
+             <<"ljg", <<-1, -1, -2, -4, -1>>>>, <<"lj126", <<-1, 2, 0, 0, 0>>>>, <<"lj126", <<0, 0, 0, 0, 0>>>> }
 ====
